@@ -958,6 +958,9 @@ func unop(fr *frame, instr *ssa.UnOp, x value) value {
 		if p == nil {
 			panic(targetPanic{runtimeErr("invalid memory address or nil pointer dereference")})
 		}
+		if fr.m.raceOn {
+			fr.m.noteCell(fr, p, false)
+		}
 		return load(mustDeref(instr.X.Type()), p)
 	case token.NOT:
 		return !x.(bool)
